@@ -2,6 +2,7 @@ import RpmVerif.Lemmas.Vercmp
 import RpmVerif.Gen.VercmpVectors
 import RpmVerif.Lemmas.VercmpUtf8
 import RpmVerif.Lemmas.Version
+import RpmVerif.Lemmas.VercmpNum
 /-!
 # C13 — version comparison equals rpm's algorithm and is a total preorder
 
@@ -274,6 +275,40 @@ theorem rpmEvrCompare_spec (s t e1 v1 r1 e2 v2 r2 : Str) (hs : EvrText s e1 v1 r
 theorem evrText_total (s : Str) : ∃ e v r, EvrText s e v r :=
   ⟨_, _, _, (evrText_iff s _ _ _).mpr rfl⟩
 
+/-! ### epochs compare numerically (AUDIT2 c41) -/
+
+theorem epochOr0_digits (a : Str) (ha : AllDigits a) :
+    AllDigits (epochOr0 a) ∧ epochOr0 a ≠ [] ∧ decVal (epochOr0 a) = decVal a := by
+  cases a with
+  | nil => exact ⟨by intro c hc; simp [epochOr0] at hc; subst hc; decide, by simp [epochOr0], by decide⟩
+  | cons x r => exact ⟨ha, by simp [epochOr0], rfl⟩
+
+/-- **Epochs compare numerically.** The library (like rpm ≥ 4.16) runs the version comparison on the epoch TEXTS, "" read
+as "0". For all-digit epochs — the only ones rpm itself ever holds — that is the comparison of the numbers they denote:
+`00` = `0` = ``, `007` < `10`, 2⁶⁴ > 2⁶⁴ − 1 (no machine-integer wrap-around). -/
+theorem epoch_numeric (a b : Str) (ha : AllDigits a) (hb : AllDigits b) :
+    rustCmp (epochOr0 a) (epochOr0 b) = compare (decVal a) (decVal b)
+    ∧ cVercmp (epochOr0 a) (epochOr0 b) = compare (decVal a) (decVal b) := by
+  obtain ⟨da, na, va⟩ := epochOr0_digits a ha
+  obtain ⟨db, nb, vb⟩ := epochOr0_digits b hb
+  have := keyCmp_digits _ _ da db na nb
+  rw [va, vb] at this
+  exact ⟨by rw [rustCmp_eq_keyCmp, this], by rw [cVercmp_eq_keyCmp, this]⟩
+
+/-- `Evr::cmp` with numeric epochs: the number decides first, then version, then release -/
+theorem evr_cmp_numeric_epoch (x y : Evr) (hx : AllDigits x.epoch) (hy : AllDigits y.epoch) :
+    x.cmp y = (compare (decVal x.epoch) (decVal y.epoch)).then
+      ((cVercmp x.version y.version).then (cVercmp x.release y.release)) := by
+  rw [evr_cmp_spec, (epoch_numeric _ _ hx hy).2]
+
+/-- outside the digit strings the epoch comparison is NOT numeric (and `==` is finer than `cmp`): documented behaviour of the
+text comparison — "1a" > "1" (a letter run after the number), "a" < "" = "0" (letters sort before numbers), "00" and "0"
+compare Equal although `Evr::eq` tells them apart -/
+theorem epoch_text_cases :
+    rustCmp (epochOr0 [49, 97]) (epochOr0 [49]) = .gt ∧ rustCmp (epochOr0 [97]) (epochOr0 []) = .lt
+    ∧ Evr.cmp ⟨[48, 48], [49], [49]⟩ ⟨[48], [49], [49]⟩ = .eq ∧ Evr.eq ⟨[48, 48], [49], [49]⟩ ⟨[48], [49], [49]⟩ = false := by
+  decide +kernel
+
 /-! ### the oracle: vectors that do not live in /repo (AUDIT2 c40)
 
 The tables are generated from files vendored under /verif/tools/gen/data: rpm's own `tests/rpmvercmp.at` cases, and ordered
@@ -336,5 +371,11 @@ example : Evr.gt ⟨[49], [48], [48]⟩ ⟨[], [50], [57]⟩ = true ∧ Evr.part
 example : EvrText [49,58,50,46,48,45,51] [49] [50,46,48] [51] := ⟨[50,46,48,45,51], Or.inl ⟨rfl, by decide⟩, Or.inl ⟨rfl, by decide⟩⟩
 example : EvrText [50,46,48] [] [50,46,48] [] := ⟨[50,46,48], Or.inr ⟨by decide, rfl, rfl⟩, Or.inr ⟨by decide, rfl, rfl⟩⟩
 example : rpmEvrCompare [49,58,50,46,48,45,51] [50,46,48] = .gt := by decide +kernel
+
+-- premises of `epoch_numeric`: "007" is all digits and denotes 7; the empty epoch denotes 0; "1a" is not all digits
+example : AllDigits [48, 48, 55] ∧ decVal [48, 48, 55] = 7 ∧ decVal [] = 0 ∧ ¬ AllDigits [49, 97] := by decide
+-- 2^64 as an epoch is larger than 2^64 − 1 (20 digits each: the digits decide)
+example : rustCmp [49,56,52,52,54,55,52,52,48,55,51,55,48,57,53,53,49,54,49,54] [49,56,52,52,54,55,52,52,48,55,51,55,48,57,53,53,49,54,49,53] = .gt := by
+  decide +kernel
 
 end RpmVerif.C13
